@@ -1019,7 +1019,13 @@ class ManyToMany:
         """
         if key not in self.data:
             return
-        self.data[newkey] = fwdset = self.data.pop(key)
+        fwdset = self.data.pop(key)
+        if newkey in self.data:
+            # merge into an existing key rather than overwriting it,
+            # which would strand its entries on the inverse side
+            self.data[newkey].update(fwdset)
+        else:
+            self.data[newkey] = fwdset
         for val in fwdset:
             revset = self.inv.data[val]
             revset.remove(key)
